@@ -21,6 +21,8 @@ FILES = {
     "barfoo.py": "class Qux:\n    pass\n\n\nclass Baz:\n    pass\n",
     "shape.py": "class shape:\n    class Part:\n        pass\n",
     "mytyping.py": "class Tx:\n    pass\n",
+    "_priv.py": "class Hidden:\n    pass\n",
+    "only_in_td.py": "class Rare:\n    pass\n",
 }
 
 
@@ -28,7 +30,8 @@ def target_source(name):
     lines = ["class Own:", "    pass", "", "", "class Outer:", "    class Inner:", "        pass", "", ""]
     for i in range(NFUNC):
         lines += [f"def f{i}(a, b, c):", "    return None", "", ""]
-    lines += ["def g0(a):", "    yield a", "", "", "class Kls:", "    def m(self, a, b):", "        return None", ""]
+    lines += ["def g0(a):", "    yield a", "", "", "class Kls:", "    def m(self, a, b):", "        return None", "",
+              "    class Nest:", "        def nm(self, a):", "            return None", ""]
     return "\n".join(lines)
 
 
@@ -43,7 +46,7 @@ def write_fixture(d, tname):
 
 ATOM_SETS = {
     # distinct class names per import context (main stratum)
-    "main": ["int", "str", "NoneType", "uB", "uU", "puP", "fFoo", "bfQux", "Own", "OInner", "shp", "shpPart", "SIO", "txTx", "pu_utils", "pTop"],
+    "main": ["int", "str", "NoneType", "uB", "uU", "puP", "fFoo", "bfQux", "Own", "OInner", "shp", "shpPart", "SIO", "txTx", "pu_utils", "pTop", "pvHidden"],
     # same class name imported from two modules (collision stratum)
     "samename": ["int", "uB", "puB", "fBaz", "bfBaz", "NoneType"],
 }
@@ -53,6 +56,8 @@ def setup_ns(tmod):
     import _io
     import barfoo
     import foo
+    import _priv
+    import only_in_td
     import pkg
     import pkg.utils
     import shape
@@ -62,7 +67,7 @@ def setup_ns(tmod):
     ns = gt.NS
     ns.update({"uB": utils.B, "uU": utils.U, "puP": pkg.utils.P, "puB": pkg.utils.B, "fFoo": foo.Foo, "fBaz": foo.Baz, "bfQux": barfoo.Qux,
                "bfBaz": barfoo.Baz, "Own": tmod.Own, "OInner": tmod.Outer.Inner, "shp": shape.shape, "shpPart": shape.shape.Part,
-               "SIO": _io.StringIO, "txTx": mytyping.Tx, "pu_utils": pkg.utils.utils, "pTop": pkg.Top})
+               "SIO": _io.StringIO, "txTx": mytyping.Tx, "pu_utils": pkg.utils.utils, "pTop": pkg.Top, "pvHidden": _priv.Hidden, "oRare": only_in_td.Rare})
 
 
 def gen_sig_type(rng, stratum, with_td):
@@ -112,7 +117,9 @@ def judge_build(res, tmod, traces_spec, k, stratum, wit):
     for item in traces_spec:
         fname, args, ret = item[0], item[1], item[2]
         yld = item[3] if len(item) > 3 else None
-        f = getattr(tmod, fname) if "." not in fname else getattr(getattr(tmod, fname.split(".")[0]), fname.split(".")[1])
+        f = tmod
+        for part in fname.split("."):
+            f = getattr(f, part)
         at = {n: gt.ev(e) for n, e in args.items()}
         rt_ = gt.ev(ret) if ret else None
         yt_ = gt.ev(yld) if yld else None
@@ -248,6 +255,9 @@ def gen_build(rng):
                 if rng.random() < 0.6:
                     ret = rng.choice(TD_WRAPS).format(t=gen_td_expr(rng, fresh, fields), u=gen_td_expr(rng, fresh, fields)) if rng.random() < 0.5 else gen_sig_type(rng, "main", False)
                 spec.append((f"f{i}", args, ret, None))
+        if rng.random() < 0.4 and ("a" not in used or stratum == "tdcollide"):
+            used.add("a")
+            spec.append(("Kls.Nest.nm", {"a": rng.choice(TD_WRAPS[:4]).format(t=gen_td_expr(rng, fresh, "user" if stratum == "tdbody" else fields), u="int")}, None, None))
         if rng.random() < 0.6:
             spec.append(("g0", {"a": "int"}, rng.choice([None, "int", "NoneType"]), rng.choice(TD_WRAPS[:6]).format(t=gen_td_expr(rng, fresh, fields), u="int")))
     return stratum, k, [s for s in spec if s[1] or s[2] or s[3]]
@@ -283,6 +293,8 @@ PINNED = [
     {"name": "module-prefix-substring", "k": 0, "spec": [("f0", {"a": "uU", "b": "puP"}, "bfQux"), ("f1", {"a": "fFoo", "b": "bfQux"}, "shpPart")]},
     {"name": "typeddict-under-defaultdict", "k": 3, "spec": [("f0", {"a": "DefaultDict[str, TD({'x': int}, {})]"}, None)]},
     {"name": "package-and-its-submodule", "k": 0, "spec": [("f0", {"a": "pTop", "b": "puP"}, "Dict[pTop, List[puP]]"), ("f1", {"a": "puP"}, "pTop")]},
+    {"name": "typeddict-of-nested-class-method-needs-import", "k": 3, "stratum": "tdbody", "spec": [("Kls.Nest.nm", {"a": "TD({'x': oRare}, {})"}, None)]},
+    {"name": "private-top-level-module", "k": 0, "spec": [("f0", {"a": "pvHidden"}, "List[pvHidden]")]},
     {"name": "typeddict-yielded", "k": 3, "spec": [("g0", {"a": "int"}, None, "TD({'x': int}, {})")]},
 ]
 
